@@ -468,7 +468,7 @@ pub static C12: PropDef = PropDef {
         "a leaked registration is observed through the self-pipe write end it keeps open (descriptor count / handed-over fds), the registry offers no introspection",
         "signals are raised only once the library has taken them over",
     ],
-    cases: (1500, 20_000),
+    cases: (1500, 60_000),
     shrink_iters: 300,
     worker,
     replay,
